@@ -993,6 +993,38 @@ pub fn gen_c19<W: Write>(out: &mut W, thorough: bool, seed: u64) {
     let mut r = Rng::new(seed ^ 0xC19);
     let lists = all_lists(3);
     let n = if thorough { 100000 } else { 2500 };
+    /* comparisons only, at the values where IEEE order is not a total order: signed zeros (equal, neither below
+       the other) and NaN (unordered: every comparison false except `ne`), infinities, on either side and in
+       either container; all 7 x 7 value pairs for both number types */
+    let special = [0.0, -0.0, f64::NAN, f64::INFINITY, f64::NEG_INFINITY, 1.5, -1.5];
+    for kind in 0..2 {
+        let ctor = if kind == 0 { "dual" } else { "dual2" };
+        for (i, a) in special.iter().enumerate() {
+            for (j, b) in special.iter().enumerate() {
+                // with and without variables (the Hessian of a one-variable Dual2 is one entry)
+                let with_vars = (i + j) % 2 == 0;
+                for (id, v) in [(1, a), (2, b)] {
+                    if with_vars {
+                        let h = if kind == 1 { format!(" {}", hf(0.25)) } else { String::new() };
+                        writeln!(out, "{} {} {} 1 x {}{} 0", ctor, id, hf(*v), hf(r.dyadic()), h).unwrap();
+                    } else {
+                        writeln!(out, "{} {} {} 0 0", ctor, id, hf(*v)).unwrap();
+                    }
+                }
+                for op in ["eq", "ne", "lt", "le", "gt", "ge"] {
+                    writeln!(out, "cmp {} 1 2", op).unwrap();
+                    writeln!(out, "ncmp {} 1 2", op).unwrap();
+                }
+                for op in ["eq", "lt", "le", "gt", "ge"] {
+                    writeln!(out, "cmpf {} 1 {}", op, hf(*b)).unwrap();
+                    writeln!(out, "fcmp {} {} 2", op, hf(*a)).unwrap();
+                    writeln!(out, "ncmpf {} 1 {}", op, hf(*b)).unwrap();
+                    writeln!(out, "fncmp {} {} 2", op, hf(*a)).unwrap();
+                }
+                writeln!(out, "reset").unwrap();
+            }
+        }
+    }
     for _ in 0..n {
         let kind = r.below(2);
         let la = r.pick(&lists).clone();
